@@ -493,7 +493,7 @@ func (f *frame) selectStmt(i *ssa.Select, n *node, st *State) *State {
 			// assertions attached to this receiving case (checked when it is the one taken)
 			if f.c != nil {
 				if fld := chanSiteName(s.Chan); fld != "" {
-					site := fmt.Sprintf("recv %s#%d", fld, f.siteOrd("recv "+fld, s.Pos))
+					site := fmt.Sprintf("selrecv %s#%d", fld, f.siteOrd("selrecv "+fld, s.Pos))
 					if as := f.c.CallAsserts[site]; len(as) > 0 {
 						x.hitSites[site] = true
 						for _, a := range as {
